@@ -78,6 +78,15 @@ def main(argv):
         if argv[0] == 'selftest':
             G = driver.assemble()
             print('selftest: generated %d lines, %d functions, %d obligations' % (len(G.linemap), len(G.fns), len(G.obligations)))
+            # non-vacuity smoke test (informational): a deliberately broken copy of the sources must fail an obligation
+            try:
+                import json as _json
+                from . import thorough
+                m = [x for x in _json.load(open(thorough.MUTANTS)) if x['id'] == 'm01'][0]
+                r = thorough.run_mutant(m, set())
+                print('selftest: mutant m01 (%s): %s %s' % (m['note'], r['status'], r.get('by', '')[:2] if r.get('by') else ''))
+            except Exception as e:
+                print('selftest: mutant smoke test could not run: %s' % e)
             return 0
         from . import checks
         return checks.main(argv)
